@@ -36,7 +36,8 @@ REQUIRED_MONITORS = ["value-continuous", "normal-component-continuous", "tangent
                      "gradient-continuous", "value-continuous/facetbasis", "normal-component-continuous/facetbasis",
                      "tangential-component-continuous/facetbasis"]
 REQUIRED_REACH = ["facet-opposite-direction", "facet-different-slot", "hdiv-orient-both-signs",
-                  "hcurl-orient-both-signs", "curved-mesh", "docs-mesh", "quad-shifted", "hex-rotated"]
+                  "hcurl-orient-both-signs", "curved-mesh", "docs-mesh", "quad-shifted", "hex-rotated",
+                  "derived-mesh", "derived-mesh:adaptive"]
 
 
 def mesh_geometry(mesh, kind, order):
@@ -449,6 +450,54 @@ def vertex_continuity(ctx, mc, rec):
                   worst=worstg, desc=mc.desc)
 
 
+def derived(ctx, rng, mc):
+    """"For every mesh": also the meshes the library itself returns from an operation on a default-constructed
+    mesh (the caller never switched anything off): adaptive and uniform refinement, restriction to a cell subset,
+    rigid motion, mirroring, tagging.  Geometry class (affine / planar faces) is inherited."""
+    m, kind = mc.mesh, mc.kind
+    nt = m.t.shape[1]
+    ops = ["restrict", "translated", "scaled", "tagged"]
+    if kind in ("tri", "quad") or nt <= 12:
+        ops.append("mirrored")
+    if kind in ("tri", "tet") and nt <= 60:
+        ops += ["adaptive", "adaptive", "adaptive-twice"]
+    if nt <= {"tri": 20, "quad": 16, "tet": 6, "hex": 3}[kind]:
+        ops.append("uniform")
+    op = ops[int(rng.integers(len(ops)))]
+    d = m.p.shape[0]
+    try:
+        if op == "restrict":
+            keep = np.sort(rng.choice(nt, size=max(2, int(nt * 0.7)), replace=False)) if nt > 2 else np.arange(nt)
+            m2 = m.restrict(keep)
+        elif op == "translated":
+            m2 = m.translated(tuple(float(v) for v in rng.integers(-3, 4, size=d) / 4.0))
+        elif op == "scaled":
+            m2 = m.scaled(tuple(float(v) for v in rng.choice([0.5, 2.0, 1.5], size=d)))
+        elif op == "tagged":
+            m2 = m.with_subdomains({"a": np.arange(nt)[: max(1, nt // 2)]}).with_boundaries({"b": m.boundary_facets()[:2]})
+        elif op == "mirrored":
+            n = np.zeros(d)
+            n[int(rng.integers(d))] = 1.0
+            m2 = m.mirrored(tuple(n), tuple(np.asarray(m.p).min(1) - 0.25))
+        elif op == "adaptive":
+            m2 = m.refined(np.sort(rng.choice(nt, size=int(rng.integers(1, max(2, nt // 3))), replace=False)))
+        elif op == "adaptive-twice":
+            m2 = m.refined(rng.choice(nt, size=1))
+            m2 = m2.refined(np.sort(rng.choice(m2.t.shape[1], size=2, replace=False)))
+        else:
+            m2 = m.refined()
+    except Exception as e:  # the operation itself is C12/C13/C18's subject
+        ctx.drop(f"derived-op-raised:{op}:{type(e).__name__}")
+        return mc
+    if m2.t.shape[1] > ctx.scale(160, 400) or not len(interior_facets(m2)):
+        ctx.drop("derived-mesh-too-large-or-no-interior-facets")
+        return mc
+    ctx.reached("derived-mesh:" + op.split("-")[0])
+    ctx.reached("derived-mesh")
+    return G.MeshCase(m2, kind, 1, dict(mc.desc, derived=op, ncells=int(m2.t.shape[1])), affine_cells=mc.affine_cells,
+                      straight=True, planar_faces=mc.planar_faces)
+
+
 def pick_mesh(ctx, rng, rec, k):
     from .c09 import wellshaped
     kind = rec.kind
@@ -466,6 +515,8 @@ def pick_mesh(ctx, rng, rec, k):
         ctx.reached("quad-shifted")
     if kind == "hex" and mc.desc.get("renumbered"):
         ctx.reached("hex-rotated")
+    if kind in ("tri", "quad", "tet", "hex") and k % 3 == 1:
+        mc = derived(ctx, rng, mc)
     if kind in ("tri", "quad", "tet", "hex") and k % 3 == 2:
         mc = G.second_order(rng, mc)
         if not mc.straight:
